@@ -112,7 +112,7 @@ def run_prog(args, hook=None):
             elif op == "eqs":
                 k, t = take(2); top = stack[-1]
                 try:
-                    other = Specifier(t) if k == "X" else t
+                    other = Specifier(t) if k == "X" else len(t) if k == "n" else t
                     r = top == other
                     if r is not True and r is not False: out.append("!nonbool")
                     elif r != (not top != other): out.append("!eq-ne-disagree")
